@@ -187,7 +187,8 @@ Section Ext.
         if s_size s <? s_total s + len then (w, fail 400) else
         if (s_total s + len <? s_size s) && (len <? c_min_part cfg) then (w, fail 400) else
         (* FIX c: the hashers are written only after UploadPart succeeded *)
-        if fault then (w, fail 502) else
+        (* UploadPart fails when S3 has no such open upload (completed / aborted) *)
+        if fault || negb (w_s3open w) then (w, fail 502) else
         let s' := mkSess (s_key s) (s_size s) (s_expect s) (s_alg s) (s_next s + 1) (s_total s + len)
                          (s_parts s ++ [(n, fst body)]) (s_hashed s ++ [body]) in
         (mkWorld (Some s') (w_s3open w) (w_s3parts w ++ [(n, body)]) (w_objects w) (w_nextkey w), fail 200)
@@ -224,9 +225,8 @@ Section Ext.
           if nonempty (s_expect s) && nonempty sum && negb (bytes_eqb (s_expect s) sum) then (w1, fail 400) else
           let env := mkEnv (s_key s) (s_total s) (hashf 0 (s_hashed s)) sum in
           let st := broker_status r in
-          if st =? 200 then
-            (mkWorld None false [] (w_objects w1) (w_nextkey w1), mkResp 200 (Some env))
-          else (w1, fail st)
+          (* on 200 the session is deleted from the map (see [body]); the object stays *)
+          if st =? 200 then (w1, mkResp 200 (Some env)) else (w1, fail st)
         end
       end
     end.
@@ -235,7 +235,7 @@ Section Ext.
   Definition do_abort (w : world) : world * response :=
     match w_sess w with
     | None => (w, fail 404)
-    | Some _ => (mkWorld None false [] (w_objects w) (w_nextkey w), fail 204)
+    | Some _ => (mkWorld (w_sess w) false [] (w_objects w) (w_nextkey w), fail 204)
     end.
 
   Definition step (cfg : config) (w : world) (e : event) : world * response :=
@@ -255,4 +255,103 @@ Section Ext.
     end.
 
   Definition init_world : world := mkWorld None false [] [] 0.
+
+  (* ---------- the session map, expiry and requests in flight ----------
+     [w_sess] is the session OBJECT; it outlives its deletion from m.uploadSessions because a
+     handler looks the session up first and locks session.mu afterwards: a request that found
+     the session keeps working on it even if a concurrent request deletes it meanwhile.
+     Every Part/Complete/Abort body runs under session.mu from the lock to the response, so
+     overlapping requests on one session are: arrival (lookup; 404 when not in the map),
+     waiting for the mutex, then the whole body atomically.  [CRun i] lets the i-th waiting
+     request take the mutex: all lock orders are event lists.  [CExpire]: the clock passes
+     ExpiresAt (lookups then drop the session from the map; a body that already holds the
+     pointer answers 410 and deletes it). *)
+  Record sys := mkSys {
+    y_w : world;
+    y_live : bool;            (* the session is in m.uploadSessions *)
+    y_expired : bool;         (* now > session.ExpiresAt *)
+    y_pending : list event }. (* requests that found the session and wait for session.mu *)
+
+  Inductive cevent :=
+  | CReq (e : event)          (* a request that arrives and runs without overlapping another one *)
+  | CArrive (e : event)       (* a request arrives (session lookup) and waits for the mutex *)
+  | CRun (i : nat)            (* the i-th waiting request gets the mutex and runs to its response *)
+  | CExpire.
+
+  Definition is_session_event (e : event) : bool :=
+    match e with EPart _ _ _ | EComplete _ _ _ | EAbort => true | _ => false end.
+
+  (* lfsGetUploadSession: cleanup of expired sessions, then the map lookup *)
+  Definition lookup (y : sys) : sys * bool :=
+    if y_expired y then (mkSys (y_w y) false (y_expired y) (y_pending y), false) else (y, y_live y).
+
+  (* checks of handleHTTPUploadSession before the lookup *)
+  Definition precheck (e : event) : option response :=
+    match e with
+    | EPart n _ _ => if (n <=? 0) || (2147483647 <? n) then Some (fail 400) else None
+    | _ => None
+    end.
+
+  (* a handler body, from session.mu.Lock() to the response *)
+  Definition body (cfg : config) (y : sys) (e : event) : sys * response :=
+    match e with
+    | EPart _ _ _ | EComplete _ _ _ =>
+        if y_expired y then (mkSys (y_w y) false (y_expired y) (y_pending y), fail 410) else
+        let '(w', p) := step cfg (y_w y) e in
+        let deleted := match e with EComplete _ _ _ => p_status p =? 200 | _ => false end in
+        (mkSys w' (y_live y && negb deleted) (y_expired y) (y_pending y), p)
+    | EAbort =>
+        let '(w', p) := step cfg (y_w y) e in (mkSys w' false (y_expired y) (y_pending y), p)
+    | EInit _ _ _ _ =>
+        let '(w', p) := step cfg (y_w y) e in
+        if p_status p =? 200 then (mkSys w' true false (y_pending y), p)
+        else (mkSys w' (y_live y) (y_expired y) (y_pending y), p)
+    | EProduce _ _ _ _ _ =>
+        let '(w', p) := step cfg (y_w y) e in (mkSys w' (y_live y) (y_expired y) (y_pending y), p)
+    end.
+
+  Fixpoint remove_nth {A} (i : nat) (l : list A) : list A :=
+    match l, i with
+    | [], _ => []
+    | _ :: l', O => l'
+    | x :: l', S i' => x :: remove_nth i' l'
+    end.
+
+  Definition cstep (cfg : config) (y : sys) (c : cevent) : sys * option response :=
+    match c with
+    | CExpire => (mkSys (y_w y) (y_live y) true (y_pending y), None)
+    | CReq e =>
+        if is_session_event e then
+          match precheck e with
+          | Some p => (y, Some p)
+          | None => let '(y1, found) := lookup y in
+                    if found then let '(y2, p) := body cfg y1 e in (y2, Some p) else (y1, Some (fail 404))
+          end
+        else let '(y2, p) := body cfg y e in (y2, Some p)
+    | CArrive e =>
+        if is_session_event e then
+          match precheck e with
+          | Some p => (y, Some p)
+          | None => let '(y1, found) := lookup y in
+                    if found then (mkSys (y_w y1) (y_live y1) (y_expired y1) (y_pending y1 ++ [e]), None)
+                    else (y1, Some (fail 404))
+          end
+        else let '(y2, p) := body cfg y e in (y2, Some p)
+    | CRun i =>
+        match nth_error (y_pending y) i with
+        | None => (y, None)
+        | Some e =>
+            let y1 := mkSys (y_w y) (y_live y) (y_expired y) (remove_nth i (y_pending y)) in
+            let '(y2, p) := body cfg y1 e in (y2, Some p)
+        end
+    end.
+
+  Fixpoint crun (cfg : config) (y : sys) (cs : list cevent) : sys * list (option response) :=
+    match cs with
+    | [] => (y, [])
+    | c :: cs' => let '(y1, p) := cstep cfg y c in
+                  let '(y2, ps) := crun cfg y1 cs' in (y2, p :: ps)
+    end.
+
+  Definition init_sys : sys := mkSys init_world false false [].
 End Ext.
